@@ -102,9 +102,11 @@ C20M = ["contracts.logging_configs", "contracts.validators"]
 PROPS["C20"] = dict(level="proof",
     units=[U(C20M, "mdpax.utils.logging.get_convergence_format"), U(C20M, "mdpax.core.solver.Solver._setup_config"),
            U(C20M, f"{VI}._setup_convergence_testing", only=["full."], tag="full")]
-          + [U(C20M, f"{c}.__post_init__") for c in CFGS],
+          + [U(C20M, f"{c}.__post_init__") for c in CFGS]
+          + [U(C20M, "mdpax.problems.perishable_inventory.mirjalili_platelet.MirjaliliPlateletPerishableConfig.__post_init__"), U(C20M, "mdpax.utils.logging.verbosity_to_loguru_level")],
     replayers=[("*", "replay_c20.py")],
-    assumptions=[ARITH, ENGINE])
+    bounded=[dict(name="c20_runtime", script="harness_c20.py", wall_s=400)],
+    assumptions=[ARITH, ENGINE, "the float64 clause and the equivalence of the three construction routes involve JAX's global x64 flag, Hydra instantiate and the OmegaConf YAML round trip: bounded run-time checks only (fresh processes, 5 solvers x 2 problems), not proved"])
 
 PROPS["C08"] = dict(
     bounded=[dict(name="c08_runtime", script="harness_solvers.py", args=["--prop", "c08"], wall_s=300)],
